@@ -312,6 +312,27 @@ fn bloom_case() -> impl Strategy<Value = BloomCase> {
 }
 
 fn bloom_images(c: &BloomCase, info: &mut CaseInfo) -> Result<(), Fail> {
+    // thorough tier, once per run: a dirty-count image of a filter with more than 2^32 set bits (the format allows
+    // about 2^37 bits): the recount must not be done in 32-bit arithmetic
+    static HUGE_DONE: std::sync::atomic::AtomicBool = std::sync::atomic::AtomicBool::new(false);
+    if std::env::var("VERIF_TIER_HINT").map(|t| t == "thorough").unwrap_or(false) && !HUGE_DONE.swap(true, std::sync::atomic::Ordering::SeqCst) {
+        let words = (1usize << 26) + 1;
+        let mut img = Vec::with_capacity(32 + 8 * words);
+        // preamble longs 4, serial version 1, family 21, flags 0; num_hashes 3; seed; word count; dirty marker
+        img.extend_from_slice(&[4u8, 1, 21, 0]);
+        img.extend_from_slice(&3u16.to_le_bytes());
+        img.extend_from_slice(&[0u8, 0]);
+        img.extend_from_slice(&c.seed.to_le_bytes());
+        img.extend_from_slice(&(words as i32).to_le_bytes());
+        img.extend_from_slice(&[0u8; 4]);
+        img.extend_from_slice(&u64::MAX.to_le_bytes());
+        img.resize(32 + 8 * words, 0xff);
+        let d = crate::kit::runner::guard(|| BloomFilter::deserialize(&img).map_err(|e| Fail { clause: "C13.bloom.valid_image_rejected".into(), detail: format!("dirty image of a full filter of 2^32 + 64 bits: {e}") }))?;
+        drop(img);
+        let want = 64 * words as u64;
+        ensure!(d.bits_used() == want && !d.is_empty(), "C13.bloom.bits_used", "dirty image of a full filter of 2^32 + 64 bits: bits_used {} but the array has {want} bits", d.bits_used());
+        info.label("bloom:dirty_2^32_bits");
+    }
     let cap = c.words as u64 * 64;
     let mut bits = vec![0u64; c.words as usize];
     let empty = c.variant >= 2;
